@@ -379,6 +379,9 @@ def check_c04(tier: str, replay_path: Optional[str]) -> int:
     from .common import REPO, Verdicts, import_repo, seed
     import_repo()
     v = Verdicts("C04", tier)
+    if replay_path and json.loads(open(replay_path).read()).get("machine") == "Compu":
+        _c04_compu(v, tier, json.loads(open(replay_path).read())["record"]["cm"])
+        return v.finish({"states": 1, "transitions": 1, "traces_validated_against_impl": 1, "samples": []}, ["replay of one configuration"])
     if replay_path:
         case = json.loads(open(replay_path).read())
         wd = tlc.workdir("codecreplay")
@@ -409,6 +412,7 @@ def check_c04(tier: str, replay_path: Optional[str]) -> int:
                 st[k] = st.get(k, 0) + x
         stats[name] = st
     print(f"[C04] replay: {stats}", flush=True)
+    compu_stats = _c04_compu(v, tier)
     s0 = stats["c"]
     if s0["accepted"] == 0 or s0["rejected_lib"] == 0 or s0["wrong_type_cases"] == 0:
         raise tlc.MachineryError(f"vacuity: {s0}")
@@ -419,7 +423,7 @@ def check_c04(tier: str, replay_path: Optional[str]) -> int:
                    "[-2^n-1, 2^n+1] for n <= 8, the range boundaries up to 64 bits, byte fields and strings one unit shorter "
                    "and longer, wrongly typed objects, omitted required and unknown parameters; each case executed on the real "
                    "encoder: outcome must be an OdxError or a PDU that decodes to the request",
-           "exhaustive": True, "descriptions": len(recs), "cases": ncases, "replay": stats,
+           "exhaustive": True, "descriptions": len(recs), "cases": ncases, "replay": stats, "compu": compu_stats,
            "samples": [{"ps": [[p["k"], p["n"]] for p in recs[0]["ps"]], "case": recs[0]["cases"][0]["vals"]}]}
     return v.finish(cov, ["TLC and the CommunityModules", "the reference's own accept/reject verdict is NOT the oracle (a stricter "
                           "encoder is fine); OdxError (not only EncodeError) counts as the library's own error type",
@@ -448,6 +452,9 @@ def check(prop: str, tier: str, replay_path: Optional[str]) -> int:
     from .common import Verdicts, import_repo, seed
     import_repo()
     v = Verdicts(prop, tier)
+    if replay_path and json.loads(open(replay_path).read()).get("machine") == "Compu":
+        _c03_compu(v, tier, json.loads(open(replay_path).read())["record"]["cm"])
+        return v.finish({"states": 1, "transitions": 1, "traces_validated_against_impl": 1, "samples": []}, ["replay of one configuration"])
     if replay_path:
         case = json.loads(open(replay_path).read())
         wd = tlc.workdir("codecreplay")
@@ -522,10 +529,12 @@ def _recompute(case: Dict[str, Any], wd: Any, wrong: bool = False) -> Dict[str, 
     return recs[0]
 
 
-def _c03_compu(v: Any, tier: str) -> Dict[str, Any]:
+def _c03_compu(v: Any, tier: str, only_cm: Any = None) -> Dict[str, Any]:
     """C03, second sentence: internal -> physical -> internal is the identity for injective compu methods (Compu.tla)."""
     from . import compu
     res, recs = compu.run_model(tier)
+    if only_cm is not None:
+        recs = [r for r in recs if r["cm"] == only_cm]
     reals = compu.build([r["cm"] for r in recs])
     n = inj = 0
     for rec, real in zip(recs, reals):
@@ -539,6 +548,29 @@ def _c03_compu(v: Any, tier: str) -> Dict[str, Any]:
                                            "record": {"cm": rec["cm"]}})
     print(f"[C03] compu round trip: {len(recs)} configurations, {inj} injective, {n} failures", flush=True)
     return {"configurations": len(recs), "injective": inj, "states": res.distinct}
+
+
+def _c04_compu(v: Any, tier: str, only_cm: Any = None) -> Dict[str, Any]:
+    """C04 behind the data objects: a physical value the computation method accepts is converted to one of its pre-images
+    (Compu.tla), or refused with the library's error - never to another internal value, never a foreign exception."""
+    from . import compu
+    res, recs = compu.run_model(tier)
+    if only_cm is not None:
+        recs = [r for r in recs if r["cm"] == only_cm]
+    reals = compu.build([r["cm"] for r in recs])
+    n = 0
+    for rec, real in zip(recs, reals):
+        seen = set()
+        for (clause, detail) in compu.compare(rec["cm"], rec, real):
+            bad = clause == "p2i" or (clause in ("valid_phys_converts", "moncont_encodes") and not detail.get("lib", True)) or \
+                (clause == "exception" and detail.get("op") == "load")
+            if bad and clause not in seen:
+                seen.add(clause)
+                n += 1
+                v.fail("compu_" + clause, {"machine": "Compu", **compu.shape(rec["cm"]), "detail": detail, "ps": [], "rq": [],
+                                           "outside_mask": False, "record": {"cm": rec["cm"]}})
+    print(f"[C04] compu physical -> internal: {len(recs)} configurations, {n} failures", flush=True)
+    return {"configurations": len(recs), "states": res.distinct}
 
 
 def _c05_layers(v: Any, tier: str, seed_: int) -> Dict[str, Any]:
